@@ -22,7 +22,7 @@ def main():
     j = [int(a[2:]) for a in sys.argv[1:] if a.startswith("-j")]
     paths = sorted(glob.glob(os.path.join(HERE, "refactors", "*", "refactor-*.diff")))
     if args:
-        paths = [p for p in paths if any(("/" + a) in p for a in args)]
+        paths = [p for p in paths if any(("/" + a) in p or a in p.split("/")[-2] for a in args)]
     bad = 0
     with concurrent.futures.ThreadPoolExecutor(max_workers=(j[0] if j else 6)) as ex:
         for path, rc, out in ex.map(one, paths):
